@@ -60,13 +60,15 @@ def overdraft_verdict(specs: Sequence[Dict[str, Any]], tol: Fraction = Fraction(
             min_dip = Fraction(0)
             dip_acct: Optional[Account] = None
             for s in perm:
+                # one transaction is one moment: its debit and credit are applied together (a transfer from an
+                # account to itself nets to minus its fee; the property fixes no order inside a transaction)
+                net: Dict[Account, Fraction] = {}
                 for acct, kind, amount in flows(s):
-                    if kind == "sent":
-                        b[acct] = b.get(acct, Fraction(0)) - amount
-                        if b[acct] < min_dip:
-                            min_dip, dip_acct = b[acct], acct
-                    else:
-                        b[acct] = b.get(acct, Fraction(0)) + amount
+                    net[acct] = net.get(acct, Fraction(0)) + (-amount if kind == "sent" else amount)
+                for acct, delta in net.items():
+                    b[acct] = b.get(acct, Fraction(0)) + delta
+                    if delta < 0 and b[acct] < min_dip:
+                        min_dip, dip_acct = b[acct], acct
             if min_dip < 0:
                 ever_negative = True
                 if min_dip < worst:
